@@ -105,6 +105,7 @@ type exec struct {
 	real    []stypes.KVStore
 	caches  []*cachekv.Store
 	multis  []stypes.CacheMultiStore
+	mreads  map[[2]int]map[string]bool // (multi node, substore) -> keys read there ("*": iterated)
 	mkeys   [][]stypes.StoreKey
 	model   []mNode
 	mbases  [][]*mBase // for multi nodes
@@ -229,6 +230,18 @@ func (e *exec) build() error {
 			e.real[i] = tracekv.NewStore(e.real[nd.Parent], w, nil)
 			e.model[i] = &mPass{parent: e.model[nd.Parent]}
 		case "multi":
+			if nd.Parent >= 0 {
+				// a cache multistore OF a cache multistore (what sdk.Context.CacheContext gives inside a transaction)
+				if e.tr.Nodes[nd.Parent].Kind != "multi" {
+					return fmt.Errorf("node %d: a multi node sits on a multi node or on nothing", i)
+				}
+				e.multis[i] = e.multis[nd.Parent].CacheMultiStore()
+				e.mkeys[i] = e.mkeys[nd.Parent]
+				for s := range e.mkeys[i] {
+					e.mcaches[i] = append(e.mcaches[i], &mCache{parent: e.mcaches[nd.Parent][s], d: map[string]dirty{}})
+				}
+				break
+			}
 			stores := map[stypes.StoreKey]stypes.CacheWrapper{}
 			names := map[string]stypes.StoreKey{}
 			for s := 0; s < nd.Subs; s++ {
@@ -471,6 +484,24 @@ func (e *exec) do(op *Op) {
 	}
 	// usage contract of caching wrappers (see the generator): an operation that would change a store
 	// underneath a wrapper that already holds reads of it is not executed (shrunk traces stay inside the contract)
+	if nd.Kind == "multi" {
+		// same usage contract for stacked cache multistores: a level that has a level above it is not changed
+		// under a key (or a whole substore, once iterated) the upper level has read
+		sub := op.Sub % len(e.mkeys[op.N])
+		switch op.K {
+		case "set", "del":
+			if e.upperHasRead(op.N, sub, unhexp(op.Key)) {
+				st.C("skipped_outside_usage_contract", 1)
+				return
+			}
+		case "get", "has":
+			if k := unhexp(op.Key); k != nil {
+				e.multiRead(op.N, sub, string(k))
+			}
+		case "iopen":
+			e.multiRead(op.N, sub, "*")
+		}
+	}
 	if nd.Kind != "multi" {
 		switch op.K {
 		case "set", "del":
@@ -655,18 +686,33 @@ func (e *exec) do(op *Op) {
 			}
 		} else if nd.Kind == "multi" {
 			for _, it := range e.iters {
-				if !it.closed && it.node == op.N {
-					// MemDB iterators read values lazily: writing the substores' bases while one is open is outside
-					// what the base store supports
+				if !it.closed && e.tr.Nodes[it.node].Kind == "multi" && e.multiRoot(it.node) == e.multiRoot(op.N) && nd.Parent < 0 {
+					// MemDB iterators read values lazily: writing the substores' bases while one is open (on this level
+					// or on one stacked on it) is outside what the base store supports
 					st.C("skipped_outside_usage_contract", 1)
 					return
+				}
+			}
+			if nd.Parent >= 0 {
+				// the level below receives sets and deletes: the same contract as for a set issued on it
+				for s := range e.mcaches[op.N] {
+					for k := range e.mcaches[op.N][s].d {
+						if e.upperHasReadExcept(nd.Parent, s, []byte(k), op.N) {
+							st.C("skipped_outside_usage_contract", 1)
+							return
+						}
+					}
 				}
 			}
 			for s := range e.mcaches[op.N] {
 				e.mcaches[op.N][s].write()
 			}
 			e.multis[op.N].Write()
-			e.markAllWeak()
+			if nd.Parent < 0 {
+				e.markAllWeak()
+			} else {
+				st.C("nested_multi_writes", 1)
+			}
 		}
 		e.log = append(e.log, fmt.Sprintf("write n%d", op.N))
 	case "iopen":
@@ -762,6 +808,53 @@ func (e *exec) iterOpen(op *Op, prop string) {
 		e.res.Stats.Probe("empty_range_iterator")
 	}
 	e.checkGas(op.N)
+}
+
+// multiRead records that level n of a stack of cache multistores has read key k of substore sub ("*": iterated it).
+func (e *exec) multiRead(n, sub int, k string) {
+	if e.mreads == nil {
+		e.mreads = map[[2]int]map[string]bool{}
+	}
+	m := e.mreads[[2]int{n, sub}]
+	if m == nil {
+		m = map[string]bool{}
+		e.mreads[[2]int{n, sub}] = m
+	}
+	m[k] = true
+}
+
+func (e *exec) multiRoot(n int) int {
+	for e.tr.Nodes[n].Parent >= 0 {
+		n = e.tr.Nodes[n].Parent
+	}
+	return n
+}
+
+// upperHasRead: some level stacked (directly or not) on multi node n has read key k of substore sub.
+func (e *exec) upperHasRead(n, sub int, k []byte) bool { return e.upperHasReadExcept(n, sub, k, -1) }
+
+func (e *exec) upperHasReadExcept(n, sub int, k []byte, except int) bool {
+	for c, nd := range e.tr.Nodes {
+		if nd.Kind != "multi" || c == n || c == except {
+			continue
+		}
+		above, viaExcept := false, false
+		for y := nd.Parent; y >= 0; y = e.tr.Nodes[y].Parent {
+			if y == n {
+				above = true
+			}
+			if y == except {
+				viaExcept = true // it looks through the level that is writing: its view does not change
+			}
+		}
+		if !above || viaExcept {
+			continue
+		}
+		if m := e.mreads[[2]int{c, sub}]; m != nil && (m["*"] || (k != nil && m[string(k)])) {
+			return true
+		}
+	}
+	return false
 }
 
 // fullKey maps key k of node n (substore sub of a multi node) to the key space of the base store.
